@@ -100,3 +100,57 @@ package generator
 //     ensures respBody(trace) == body_json|body_copy?(respBody(old(trace)), r.Body)
 //   emitted func (<Resp>).write<Op>(w http.ResponseWriter)
 //     the same with CODE = the status <Op> documents for this response
+
+// ---- file_components.gotmpl: SchemaComponent (JSON codecs) -------------------
+//
+// Ghost JSON writer (engine/vc/jsonw.go): every io.Writer a codec writes to has
+// views over the event trace: jst (protocol state of the text so far: 0 nothing,
+// 10 after "{", 11 member name pending, 12 after a member, 13 after a comma,
+// 14 closed object, 20/22/23/24 likewise for arrays, 0..3 a bare member list,
+// 99 BAD), jobj (member name -> written value term), jdup (a name written
+// twice). Ghost documents for decoding (engine/vc/jsonun.go): rawdoc(bs),
+// docNull, docKind, docObj, and the (assumed) outcome functions of
+// json.Unmarshal jdecErr_T / jdec_T. The families are instantiated per
+// schema-derived type from the reference reading of the schema.
+//
+//   emitted func (T).marshalJSONInnerBody(out io.Writer) error            [object schemas]      option family=json-marshal-inner
+//     requires jst(trace, out) in {0, 10, 99}
+//     ensures  err == nil && old != 99 ==> jst(trace, out) == (anyMember(c) ? base+2 : old)              [C06]
+//     ensures  err == nil && old != 99 ==> for every declared property p: memberOK_p(jobj(trace,out)[p], c)  [C07]
+//     ensures  err == nil && old != 99 ==> every other name k: (k key of c.AdditionalProperties ? its entry : the old entry) [C07]
+//     ensures  no duplicate names introduced; BAD stays BAD                                       [C06]
+//     loop #0 (additional properties) invariant: the same clauses with "visited keys" for "keys"
+//   emitted func (T).MarshalJSON() ([]byte, error)                                              option family=json-marshal
+//     ensures  err == nil ==> doc_st(result) == 14 && members as above && no duplicates          [C06, C07]
+//   emitted func marshalJSONInnerBody$writeProperty(name string, v any)   (closure over err, write, comma, encoder)   option family=json-writeProperty
+//     requires enc_writer(encoder) == out && out != nil
+//     ensures  old(err) != nil ==> nothing changes
+//     ensures  err == nil ==> old(err) == nil && comma == "," && views(out) == views after  old(comma) "name" :null | : Encode(v)
+//     frame    only err and comma are written
+//   emitted func (A).marshalJSONInnerBody / (A).MarshalJSON / $writeItem               [array schemas]   option family=json-marshal-array*
+//     requires jst in {20, 99};  ensures err == nil ==> jst == (len(c) > 0 ? 22 : 20);  MarshalJSON: doc_st(result) == 24
+//     loop #0 invariant (processed == 0 && comma == "" && jst == 20) || (processed > 0 && comma == "," && jst == 22)
+//   emitted func (*T).unmarshalJSONInnerBody(m map[string]json.RawMessage) error   [object schemas]   option family=json-unmarshal-inner
+//     requires *c == zero(T)
+//     ensures  err == nil ==> no required member missing, no present member failing                [C08]
+//     ensures  err != nil ==> some declared member is missing-and-required or present-and-failing and the error names it
+//                             (or an additional property fails to decode)                         [C08]
+//     ensures  err == nil ==> field_p == (present_p ? decoded_p : zero)                            [C06, C08]
+//     ensures  present_p && value not null && of another JSON kind than the schema's ==> err != nil  [C08]
+//     ensures  err == nil ==> AdditionalProperties holds exactly the left-over members, decoded    [C06, C08]
+//     ensures  err == nil ==> the declared names are removed from m, nothing else changes
+//     loop #0 (additional properties) invariant: visited keys are in the map with their decoded values
+//   emitted func (*T).UnmarshalJSON(bs []byte) error                                           option family=json-unmarshal
+//     requires *c == zero(T);  the same clauses over docObj(rawdoc(bs)); a non-null non-object document is rejected
+//   emitted func (*A).UnmarshalJSON(bs []byte) error                       [array schemas]       option family=json-unmarshal-array
+//     requires *c == zero(A);  ensures a non-null non-array document is rejected
+//   lemma roundtrip(T): from the two contracts and the wire assumptions, decode(encode(v)) is v, member by member [C06]
+
+//@ emitted func (*).marshalJSONInnerBody*(out io.Writer) error
+//@   option family=json-marshal-inner
+//@ emitted func (*).MarshalJSON*() ([]byte, error)
+//@   option family=json-marshal
+//@ emitted func (*).unmarshalJSONInnerBody*(m map[string]json.RawMessage) error
+//@   option family=json-unmarshal-inner
+//@ emitted func (*).UnmarshalJSON*(bs []byte) error
+//@   option family=json-unmarshal
